@@ -81,6 +81,10 @@ def run(case, ctx, rng):
                 for cut in sorted({0, 1, n // 2, max(0, n - 1), 64 if n > 64 else 0}):
                     ctx.eq('prefix', call(lambda: new().enc(v, M[:cut])), want[:cut], cut=cut, **det)
         else:
+            import crysp.salsa20 as S20
+            if not getattr(S20, '_verif_on', False):
+                ctx.notes['hook H1 absent: counter carry not observable'] += 1
+                return
             ctx.cls((ciph, kb, 'carry', start.bit_length(), start & 3, n))
             ctx.state('start-block', start)
             C = call(lambda: new().enc(v, M))
